@@ -384,8 +384,10 @@ func cmdCheck(args []string) {
 	var batches [][]int
 	var plain []int
 	for _, i := range order {
-		if items[i].Race {
-			batches = append(batches, []int{i}) // one process per race item: ThreadSanitizer ends the process at the first report
+		if items[i].Race || items[i].All {
+			// one process per race item (ThreadSanitizer ends the process at the first report) and per unbounded item
+			// (long-running: started first)
+			batches = append(batches, []int{i})
 		} else {
 			plain = append(plain, i)
 		}
@@ -497,12 +499,28 @@ func cmdCheck(args []string) {
 	byDev := map[int]int64{}
 	var samples []interface{}
 	maxBound := 0
+	var allItems, allDone, allStates, allPruned int64
+	var allList []string
 	for i, r := range results {
+		if items[i].All {
+			allItems++
+		}
 		if r == nil {
 			capped++
 			continue
 		}
 		done++
+		if items[i].All {
+			st := "complete: every interleaving"
+			if r.Capped != "" {
+				st = "capped: " + r.Capped
+			} else {
+				allDone++
+			}
+			allStates += r.AllStates
+			allPruned += r.AllPruned
+			allList = append(allList, fmt.Sprintf("%s: %s; %d executions, %d happens-before states, %d executions cut at a state already expanded", r.Name, st, r.Execs, r.AllStates, r.AllPruned))
+		}
 		execs += r.Execs
 		steps += r.Steps
 		points += r.Points
@@ -607,6 +625,13 @@ func cmdCheck(args []string) {
 		"explanation": "stateless exploration of the implementation itself (mcgen-instrumented copy of /repo's working tree under the mcrt scheduler): " +
 			"states = scheduling points visited, transitions = visible operations executed, traces_validated_against_impl = executions (each is a run of the real code); " +
 			"for sequential items states/transitions are model states/transitions and traces_validated_against_impl counts cases also executed on the unmodified package",
+	}
+	if allItems > 0 {
+		cov["unbounded_items"] = allItems
+		cov["unbounded_items_completed"] = allDone
+		cov["unbounded_happens_before_states"] = allStates
+		cov["unbounded_executions_cut"] = allPruned
+		cov["unbounded_detail"] = allList
 	}
 	if pristine > 0 {
 		cov["traces_validated_against_impl"] = pristine
